@@ -1182,7 +1182,9 @@ impl SendSignal for VirtualSystem {
                 Pid(raw_pid) if raw_pid >= 0 => {
                     let mut state = self.state.borrow_mut();
                     match state.processes.get_mut(&target) {
-                        Some(process) => {
+                        // A process that has terminated and been waited for
+                        // no longer exists.
+                        Some(process) if !process.has_been_reaped() => {
                             if let Some(signal) = signal {
                                 let result = process.raise_signal(signal);
                                 if result.process_state_changed {
@@ -1192,7 +1194,7 @@ impl SendSignal for VirtualSystem {
                             }
                             Ok(())
                         }
-                        None => Err(Errno::ESRCH),
+                        _ => Err(Errno::ESRCH),
                     }
                 }
 
@@ -1528,6 +1530,9 @@ fn send_signal_to_processes(
     let mut results = Vec::new();
 
     for (&_pid, process) in &mut state.processes {
+        if process.has_been_reaped() {
+            continue;
+        }
         if target_pgid.is_none_or(|target_pgid| process.pgid == target_pgid) {
             let result = if let Some(signal) = signal {
                 process.raise_signal(signal)
